@@ -1,4 +1,5 @@
 (* C09 — EDNS(0) handling. *)
+From QV Require Import Model.ZoneTree Model.Query Model.MsgWriter Model.QueryW Proofs.ServerOptP.
 From QV Require Import Base.ListX Model.NameWire Model.Reader Model.RdataLite Model.Server Proofs.ReaderP Proofs.ServerP
   Spec.NameWireS Spec.ReaderS Spec.MsgWalkS Proofs.MsgWalkP Proofs.MsgWalkRecP Proofs.MsgWalkTopP.
 
@@ -60,6 +61,24 @@ Theorem c09_badvers_response : forall answer verify cfg req i w, wf_cfg cfg -> w
   badvers_resp w /\ no_data w.
 Proof. exact badvers_response. Qed.
 
+(* ---- the OPT record at the byte level ---------------------------------------------------------------------
+   [respond_w] / [respond_plain] (Model/QueryW.v): the byte-level composition of Server::handle_message for a
+   clean QUERY on the Writer model of C12, run with [Some size] exactly when the server model's response is an
+   EDNS response ([size] = the server's payload size, c09_opt_iff).  Every such response ENDS with the 11
+   octets of the OPT pseudo-record: owner root (0), TYPE 41, CLASS = size, TTL field 0 (extended-RCODE bits 0,
+   VERSION 0, flags 0), RDLENGTH 0 — whatever query answering (C05) wrote before it: the EDNS setting survives
+   every Writer-interface operation, clear_rrs and the header setters (invariant EK), and finish emits the
+   record at the cursor (finish_opt / add_rr_opt). *)
+Theorem c09_answered_response_ends_with_opt : forall negttl buf tcp id rd qname qtype qclass size limit z len b,
+  respond_w negttl buf tcp id rd qname qtype qclass (Some size) limit z = Some (len, b) ->
+  11 <= len /\ slice b (len - 11) len = [0%N] ++ be16 41 ++ be16 size ++ be32 0 ++ be16 0.
+Proof. exact respond_w_opt_tail. Qed.
+
+Theorem c09_plain_response_ends_with_opt : forall buf tcp id rd qname qtype qclass size limit rcode len b,
+  respond_plain buf tcp id rd qname qtype qclass (Some size) limit rcode = Some (len, b) ->
+  11 <= len /\ slice b (len - 11) len = [0%N] ++ be16 41 ++ be16 size ++ be32 0 ++ be16 0.
+Proof. exact respond_plain_opt_tail. Qed.
+
 Example c09_spec_examples :
   let hdr ar := [18;52; 1;0; 0;1; 0;0; 0;0; 0;N.of_nat ar]%N in
   let q := [0; 0;1; 0;1]%N in
@@ -75,3 +94,5 @@ Print Assumptions c09_badvers_refuted_prefix.
 Print Assumptions c09_opt_reached_is_spec.
 Print Assumptions c09_opt_iff_spec.
 Print Assumptions c09_badvers_response.
+Print Assumptions c09_answered_response_ends_with_opt.
+Print Assumptions c09_plain_response_ends_with_opt.
